@@ -55,6 +55,9 @@ CHECKS = {
  "C13": ("engine-b", "model_checking", B,
          "for each naming policy a netlist with colliding sibling names (a, A, ab, a1, unnamed), EDIF identifiers and a user key with duplicate values; 13 query functions x 12 root kinds x selection x recursive x key x patterns derived from the names present (exact, case-swapped, prefix*, ?, escaped regex, pairs in both orders, repeated) x is_case x is_re x filter callback x fast lookup registered or not; every result is compared with the unfiltered result under the same key restricted by an independent match function; no element twice",
          "one netlist per policy; exact EDIF identifiers under the EDIF policy may (not must) match case variants - the docs promise that for the fast lookup only; elements lacking the key are judged within the unfiltered result of that key"),
+ "C20": ("engine-b", "model_checking", B,
+         "for reader-built base netlists of all three formats: faithful copies (second parse of the same text, clone, write-then-read in the own format) must compare equal; every single structural mutation of a copy - each port direction, width +-1, array-ness, each cable width +-1, each connection moved to every other free pin (other bit / other port / other instance), dropped connections, re-pointed instances, property values, one library/definition/port/cable/instance added or dropped - must make Comparer.compare() raise",
+         "bounded: 5 base netlists, every single mutation of each (several hundred per base); the copy is the second parse of the same text"),
 }
 m = {
  "version": 1,
